@@ -16,7 +16,7 @@
 sexp in_arg[4]; unsigned long in_word[2]; long in_len;
 
 /* argument classes */
-enum { CL_IMM = 0, CL_MINOBJ, CL_PAIR, CL_VECTOR, CL_BYTES, CL_STRING, CL_FIXNUM, CL_FLONUM, CL_CHAR, CL_CURSOR, CL_IPAIR, CL_IVECTOR, CL_IBYTES, CL_ISTRING };
+enum { CL_IMM = 0, CL_MINOBJ, CL_PAIR, CL_VECTOR, CL_BYTES, CL_STRING, CL_FIXNUM, CL_FLONUM, CL_CHAR, CL_CURSOR, CL_IPAIR, CL_IVECTOR, CL_IBYTES, CL_ISTRING, CL_ANY };
 
 /* every object is its own top-level variable of exact size: CBMC bounds-checks against the
  * enclosing top-level object, so elements of one array would hide an overrun into a neighbour */
@@ -45,6 +45,7 @@ static struct g_min_t g_min0, g_min1, g_min2;
 static int excluded_tag(int slot, unsigned t) { unsigned e = slot == 0 ? EXCL1 : slot == 1 ? EXCL2 : EXCL3; return t == e || (EXCLX); }
 
 static sexp mk_arg(int cls, int slot) {
+  if (cls == CL_ANY) cls = nondet_bool() ? CL_IMM : CL_MINOBJ;     /* any value that is not of an accepted type */
   switch (cls) {
   case CL_IMM: return vm_any_immediate();
   case CL_MINOBJ: { unsigned t = nondet_uint(); __CPROVER_assume(t < 2048 && !excluded_tag(slot, t));   /* a wrong-type object: any tag except those the slot accepts */ struct g_min_t *m = SLOT3(g_min, slot); m->h.tag = t; m->h.flags = nondet_uchar() & 31; verif_register(m); return (sexp)m; }
